@@ -357,7 +357,7 @@ def main():
     # --- 2. implementation run + model evaluation + oracle ---
     stats, results, fails, corr_mismatch, eval_errors = {}, {}, [], [], []
     if not any(b[0] == "harness-build" for b in broken):
-        rc, hout = run_harness(pid, seed, n, outdir, extra=cfg.get("harness_args", []), timeout=cfg.get("harness_timeout_" + tier, 900 if tier == "quick" else 10800), shard=cfg.get("shard", 500))
+        rc, hout = run_harness(pid, seed, n, outdir, extra=cfg.get("harness_args", []), timeout=cfg.get("harness_timeout_" + tier, 900 if tier == "quick" else 10800), shard=cfg.get("shard_" + tier, cfg.get("shard", 500) * (4 if tier == "thorough" and cfg.get("shard", 500) <= 50 else 1)))
         sp = os.path.join(outdir, "stats.json")
         if os.path.exists(sp):
             stats = json.load(open(sp))
